@@ -4,11 +4,20 @@
 //       job = id:prio(h|n):ordhex:dur_us:parent:delay_us:proc(0|1)
 //         parent >= 0  : added by job <parent> (from its lane) delay_us after that job started
 //         parent = -1-t: added by client thread t, delay_us after the previous add of that thread
-//       -> TRACE <seq=label,...> | counts j=n,... | started j=n,... | finished j=n,... | procs j=cb/status,... | err=<text or ->
-//     labels (same spelling as the model's): a:<job>:<h|n>:<ordhex>:<o|lane>  t:<lane>:<job>  f:<lane>  s:<lane>  c  d  x:<lane>
-//     The position of an `a` / `t` label is the sequence number of the last copy of the job's closure made by the
-//     adding / taking thread inside addJob / getNextJob: those copies happen under the queue's own mutex, so the
-//     printed order of adds and takes is the order in which the queue really performed them (never a guess).
+//       -> TRACE <seq=event,...> | counts j=n,... | started j=n,... | finished j=n,... | procs j=cb/status,... | copies=<n> | err=<text or ->
+//     events, in the order of a global sequence number taken under a mutex; ONLY what the queue's API lets a client see:
+//       P:<job>:<h|n>:<ordhex>:<o|lane>  the client (o) / the job running on <lane> is about to call addJob
+//       Q:<job>                          that addJob call has returned
+//       B:<lane>:<job>                   ExecutionQueueDelegate::queueJobStarted(job) (lane = laneID() seen by the body that follows on the same thread; -1 if none)
+//       S:<lane>:<job>:<thread>          the job body begins (QueueJobContext::laneID(), executing thread)
+//       E:<lane>:<job>                   the job body ends
+//       f:<lane>                         ExecutionQueueDelegate::queueJobFinished
+//       s:<lane>                         processStarted with a real pid;   c  cancelAllJobs has returned;   d  the destructor is about to be called
+//       x:<lane>                         (appended) the destructor has returned, so every lane thread has been joined
+//     The serial queue never calls queueJobStarted/Finished: there B and f are emitted by the job body itself around S..E.
+//     Where inside P..Q the queue really enqueued the job, and where between a lane's previous f and its next B it really
+//     dequeued one, is NOT observable and is not guessed: the acceptance check treats those two steps as internal.
+//     The job closure may be copied or moved any number of times by the queue; `copies` is a statistic, no verdict uses it.
 //   proc <lanes> <cancel_us> <base> <job>...
 //       cancel_us: -1 never; -2 cancel before any job is added; n>=0: n us after every job reported processStarted
 //       base: "environ" (pass nullptr) or a list field of raw "K=V" entries
@@ -51,6 +60,7 @@ static std::mutex gMu;
 static std::vector<Ev> gEv;
 static uint64_t gSeq = 0;
 static std::atomic<int> gTidCounter{0};
+static std::atomic<long> gCopies{0};
 static thread_local int tl_tid = -1;
 static thread_local int tl_lane = -1;
 static int mytid() { if (tl_tid < 0) tl_tid = gTidCounter++; return tl_tid; }
@@ -86,7 +96,8 @@ struct Scenario;
 struct JobFn {
   Scenario* sc; int id;
   JobFn(Scenario* sc, int id) : sc(sc), id(id) {}
-  JobFn(const JobFn& o) : sc(o.sc), id(o.id) { logev('C', -1, id); }   // the observation point (see header)
+  JobFn(const JobFn& o) : sc(o.sc), id(o.id) { gCopies++; }             // statistic only
+  JobFn(JobFn&& o) : sc(o.sc), id(o.id) {}
   void operator()(QueueJobContext* ctx);
 };
 
@@ -113,7 +124,7 @@ struct Scenario : public ExecutionQueueDelegate {
     logev('Q', srcLane, idx);
   }
 
-  void queueJobStarted(JobDescriptor* d) override { started[indexOf(d)]++; }
+  void queueJobStarted(JobDescriptor* d) override { int i = indexOf(d); started[i]++; logev('B', -1, i); }
   void queueJobFinished(JobDescriptor* d) override { int i = indexOf(d); finished[i]++; logev('F', tl_lane, i); }
   void processStarted(ProcessContext* ctx, ProcessHandle, llbuild_pid_t pid) override {
     if (pid != (llbuild_pid_t)-1) logev('W', tl_lane, indexOf(reinterpret_cast<JobDescriptor*>(ctx)));
@@ -129,6 +140,7 @@ void JobFn::operator()(QueueJobContext* ctx) {
   int lane = (int)ctx->laneID();
   tl_lane = lane;
   sc->count[id]++;
+  if (sc->serial) { sc->started[id]++; logev('B', lane, id); }
   logev('S', lane, id);
   const JobSpec& me = sc->jobs[id];
   int elapsed = 0;
@@ -148,7 +160,8 @@ void JobFn::operator()(QueueJobContext* ctx) {
     Scenario* s = sc; int i = id;
     sc->queue->executeProcess(ctx, cmd, {}, attr, {[s, i](ProcessResult r) { s->cbs[i]++; s->procStatus[i] = (int)r.status; }});
   }
-  if (sc->serial) { sc->started[id]++; sc->finished[id]++; logev('F', lane, id); }
+  logev('E', lane, id);
+  if (sc->serial) { sc->finished[id]++; logev('F', lane, id); }
 }
 
 static std::string runQueue(const SV& a) {
@@ -175,6 +188,7 @@ static std::string runQueue(const SV& a) {
   for (auto& kv : sc.children)
     std::stable_sort(kv.second.begin(), kv.second.end(), [&](int x, int y) { return sc.jobs[x].delay < sc.jobs[y].delay; });
   { std::lock_guard<std::mutex> g(gMu); gEv.clear(); gSeq = 0; }
+  gCopies = 0;
 
   if (a[2] == "serial") { sc.serial = true; lanes = 1; sc.queue = createSerialQueue(sc, nullptr).release(); }
   else sc.queue = createLaneBasedExecutionQueue(sc, lanes, alg, getDefaultQualityOfService(), nullptr);
@@ -193,31 +207,23 @@ static std::string runQueue(const SV& a) {
   delete sc.queue;                     // drains what is still queued, joins the lanes
   sc.queue = nullptr;
 
-  // ---- build the label list
+  // ---- print the events (nothing is inferred beyond the lane of a queueJobStarted call: the body that follows on its thread)
   std::vector<Ev> ev;
   { std::lock_guard<std::mutex> g(gMu); ev = gEv; }
   std::string err = sc.err;
   std::vector<std::pair<uint64_t, std::string>> labels;
-  auto lastCopy = [&](int job, int tid, long long lo, long long hi, uint64_t& out) {
-    bool found = false;
-    for (auto& e : ev) if (e.kind == 'C' && e.job == job && e.tid == tid && (long long)e.seq > lo && (long long)e.seq < hi) { out = e.seq; found = true; }
-    return found;
-  };
-  for (auto& e : ev) {
+  for (size_t k = 0; k < ev.size(); k++) {
+    const Ev& e = ev[k];
     switch (e.kind) {
-    case 'Q': {
-      long long pre = -1; bool havePre = false;
-      for (auto& p : ev) if (p.kind == 'P' && p.job == e.job && p.tid == e.tid && p.seq < e.seq) { pre = (long long)p.seq; havePre = true; }
-      uint64_t pos = e.seq;
-      if (!havePre || !lastCopy(e.job, e.tid, pre, (long long)e.seq, pos)) err += "no closure copy seen inside addJob for job " + std::to_string(e.job) + ";";
-      const JobSpec& j = sc.jobs[e.job];
-      labels.push_back({pos, "a:" + std::to_string(e.job) + ":" + (j.high ? "h" : "n") + ":" + hex(j.ord) + ":" + (e.lane < 0 ? std::string("o") : std::to_string(e.lane))});
-      break; }
-    case 'S': {
-      uint64_t pos = e.seq;
-      if (!lastCopy(e.job, e.tid, -1, (long long)e.seq, pos)) err += "no closure copy seen on the taking thread for job " + std::to_string(e.job) + ";";
-      labels.push_back({pos, "t:" + std::to_string(e.lane) + ":" + std::to_string(e.job)});
-      break; }
+    case 'P': { const JobSpec& j = sc.jobs[e.job];
+      labels.push_back({e.seq, "P:" + std::to_string(e.job) + ":" + (j.high ? "h" : "n") + ":" + hex(j.ord) + ":" + (e.lane < 0 ? std::string("o") : std::to_string(e.lane))}); break; }
+    case 'Q': labels.push_back({e.seq, "Q:" + std::to_string(e.job)}); break;
+    case 'B': {
+      int lane = e.lane;
+      if (lane < 0) for (size_t m = k + 1; m < ev.size(); m++) if (ev[m].tid == e.tid && (ev[m].kind == 'S' || ev[m].kind == 'B' || ev[m].kind == 'F')) { if (ev[m].kind == 'S' && ev[m].job == e.job) lane = ev[m].lane; break; }
+      labels.push_back({e.seq, "B:" + std::to_string(lane) + ":" + std::to_string(e.job)}); break; }
+    case 'S': labels.push_back({e.seq, "S:" + std::to_string(e.lane) + ":" + std::to_string(e.job) + ":" + std::to_string(e.tid)}); break;
+    case 'E': labels.push_back({e.seq, "E:" + std::to_string(e.lane) + ":" + std::to_string(e.job)}); break;
     case 'F': labels.push_back({e.seq, "f:" + std::to_string(e.lane)}); break;
     case 'W': labels.push_back({e.seq, "s:" + std::to_string(e.lane)}); break;
     case 'X': labels.push_back({e.seq, "c"}); break;
@@ -243,6 +249,7 @@ static std::string runQueue(const SV& a) {
     out += std::to_string(i) + "=" + std::to_string(sc.cbs[i].load()) + "/" + statusName((ProcessStatus)sc.procStatus[i]);
   }
   if (!any) out += ".";
+  out += " | copies=" + std::to_string(gCopies.load());
   out += " | err=" + (err.empty() ? std::string("-") : err);
   return out;
 }
